@@ -319,11 +319,12 @@ func populateAddressObject(ao *AddressObject, h http.Header) error {
 		ao.Path = u.Path
 	}
 	if etag := h.Get("ETag"); etag != "" {
-		etag, err := strconv.Unquote(etag)
-		if err != nil {
+		// the same reading as for the getetag property
+		var e internal.ETag
+		if err := e.UnmarshalText([]byte(etag)); err != nil {
 			return err
 		}
-		ao.ETag = etag
+		ao.ETag = string(e)
 	}
 	if contentLength := h.Get("Content-Length"); contentLength != "" {
 		n, err := strconv.ParseInt(contentLength, 10, 64)
@@ -333,11 +334,12 @@ func populateAddressObject(ao *AddressObject, h http.Header) error {
 		ao.ContentLength = n
 	}
 	if lastModified := h.Get("Last-Modified"); lastModified != "" {
-		t, err := http.ParseTime(lastModified)
-		if err != nil {
+		// the same reading as for the getlastmodified property
+		var t internal.Time
+		if err := t.UnmarshalText([]byte(lastModified)); err != nil {
 			return err
 		}
-		ao.ModTime = t
+		ao.ModTime = time.Time(t)
 	}
 
 	return nil
